@@ -127,4 +127,15 @@ def loadMany {κ α : Type} [Inhabited α] [Inhabited κ] (loadOne : String → 
     let ds ← paths.mapM loadOne
     Data.concat arange ds (dim.getD "unnamed") (if coord.length = 0 then none else some coord)
 
+/-- `load_file(path, data_format)` as `load` calls it for every single path: the format is the one given, else the one
+    autodetect finds FOR THIS PATH; an undetectable path raises TypeError, a format without an importer ValueError -/
+def loadOneAuto {κ α : Type} (info : String → PathInfo) (imp : String → String → Except Err (Data κ α))
+    (fmt : Option String) (path : String) : Except Err (Data κ α) :=
+  match fmt with
+  | some f => if dispatches f then imp f path else .error .value
+  | none =>
+    match autodetect (info path) with
+    | .fmt f => if dispatches f then imp f path else .error .value
+    | .typeError => .error .type
+
 end Dnp.Load
